@@ -11,7 +11,7 @@ SKIP_HEADERS = (b'date-unix-epoch-nanos',)
 
 def plan(t):
     q = t == 'quick'
-    return dict(tlens=(2, 3) if q else (2, 3, 4), entries=['execute', 'legacy'], with_origin=(True,) if q else (True, False), range_=('none', 'multi') if q else ('none', 'open', 'multi'))
+    return dict(tlens=(2, 3), entries=['execute', 'legacy'], with_origin=(True,) if q else (True, False), range_=('none', 'multi') if q else ('none', 'open', 'multi'))
 
 
 def explore(prog, params, method, sy_shared):
